@@ -340,6 +340,9 @@ pub fn one_run_h(shape: &Shape, ex: &mut Explorer) -> (Vec<Value>, Value, bool) 
             Val::L(l) => json!(l),
         });
     }
+    // "exit cleanup runs once": how many times the cleanup block of set_status ran for the actor
+    let ncleanup = evs.iter().filter(|e| e["a"] == "cleanup.pid" && e["obj"] == "A").count();
+    end.insert("ncleanup".into(), json!(ncleanup));
     evs.push(Value::Object(end));
     // tidy the global tables
     ractor::pg::leave(group.clone(), vec![cell.clone()]);
@@ -724,6 +727,9 @@ pub fn one_run_t(sc: &TScenario, ex: &mut Explorer) -> (Vec<Value>, Value, bool)
             Val::L(l) => json!(l),
         });
     }
+    // "exit cleanup runs once": how many times the cleanup block of set_status ran for the actor
+    let ncleanup = evs.iter().filter(|e| e["a"] == "cleanup.pid" && e["obj"] == "A").count();
+    end.insert("ncleanup".into(), json!(ncleanup));
     evs.push(Value::Object(end));
     let bad = !run.quiescent || g.done.iter().any(|d| !d);
     let mut meta = reset_meta("exitwait-t", true, true, true, usize::from(sc.kid));
